@@ -50,6 +50,15 @@
  * @return HTP_OK or HTP_ERROR
  */
 htp_status_t htp_process_request_header_generic(htp_connp_t *connp, unsigned char *data, size_t len) {
+    // Every header is looked up among the ones we have, so their number has to be bounded.
+    if (htp_table_size(connp->in_tx->request_headers) >= connp->cfg->number_headers_limit) {
+        if (!(connp->in_tx->flags & HTP_HEADERS_TOO_MANY)) {
+            connp->in_tx->flags |= HTP_HEADERS_TOO_MANY;
+            htp_log(connp, HTP_LOG_MARK, HTP_LOG_WARNING, 0, "Too many request headers");
+        }
+        return HTP_ERROR;
+    }
+
     // Create a new header structure.
     htp_header_t *h = calloc(1, sizeof (htp_header_t));
     if (h == NULL) return HTP_ERROR;
